@@ -111,7 +111,9 @@ func (r *Rep) add(v Verdict, key string, pos token.Pos, nontrivial bool, format 
 	// the same obligation decided the same way on several paths is one obligation
 	detail := fmt.Sprintf(format, args...)
 	for _, o := range r.Obs {
-		if baseObKey(o.Key) == full && o.Verdict == v && o.Detail == detail {
+		// (two violations at different places are two violations, even with the same text: a known finding that names
+		// one store must not cover a second store of the same kind in the same function)
+		if baseObKey(o.Key) == full && o.Verdict == v && o.Detail == detail && (v == OK || o.Pos == r.c.Pos(pos)) {
 			o.Paths++
 			return o
 		}
